@@ -26,7 +26,10 @@ def universe():
                     out.append("%s://%s%s%s" % (scheme, host, port, path))
     core = [u for u in out if u.startswith("http://") and ":8080" not in u]
     extra = ["http://lemonde.fr/a?q=1", "http://lemonde.fr/a#f", "http://lemonde.fr/?q=1", "http://lemonde.fr/a/b?q=1#f",
-             "http://LEMONDE.FR/a", "http://lemonde.fr:80/a", "lemonde.fr/a", "http://lemonde.fr/a/../a/b", "http://lemonde.fr/%61"]
+             "http://LEMONDE.FR/a", "http://lemonde.fr:80/a", "lemonde.fr/a", "http://lemonde.fr/a/../a/b", "http://lemonde.fr/%61",
+             # userinfo (with and without password), a special host, a host without known suffix (suffix_aware falls back to plain labels)
+             "http://user@lemonde.fr/a", "http://user:pw@lemonde.fr/a", "http://user:@lemonde.fr/a", "http://localhost/a", "http://127.0.0.1:8080/a/b",
+             "http://intranet/a", "http://a.intranet/a/b"]
     return out + extra, core + extra
 
 
